@@ -1,5 +1,5 @@
 """Property registry: which rules decide which property, and what each check claims."""
-import r_own, r_shrink, r_reach
+import r_own, r_shrink, r_reach, r_layout, r_retain
 
 RULE_DOC = {
     "R1": "no buffer access through a handle after it gave up its reference",
@@ -17,6 +17,25 @@ RULE_DOC = {
     "OWN-exit": "raw Repr values are moved into an owner before return",
     "DROP": "the last handle releases its buffer",
     "C13-nogrowth": "shrinking never applies the growth rule",
+    "U2": "user code inside a mutable-view window is covered by a guard whose Drop always publishes the length",
+    "LAYOUT": "allocate / reallocate / release agree on the block's size function and the header records the sized capacity",
+    "NULLCHK": "allocator results are null-tested before use and null maps to Err(ReserveError)",
+    "C13-guard": "shrink_to changes the buffer only towards the requested, smaller capacity",
+    "C08-noalloc": "no allocation site reachable from a clone path",
+    "C08-leaves": "clone paths end in core::* or dealloc only",
+    "C08-nouser": "no user-code edge on a clone path",
+    "C08-nocopy": "no text copy reachable from a clone path",
+    "C08-bitwise": "the clone is a bitwise read of the receiver",
+    "C09-gate": "allocating calls sit behind the exact inline threshold (or a heap guard)",
+    "C09-onlygate": "nothing outside the heap-buffer module allocates directly",
+    "C09-inline": "edits of an inline string reach no allocation outside the guarded gate",
+    "C09-onealloc": "one allocation, capacity = length",
+    "C09-funnel": "constructors reach the allocator only through the gates",
+    "C10-noalloc": "from_static_str cannot allocate", "C10-gate": "borrow/copy decision at the exact threshold",
+    "C10-borrow": "the stored pointer is the caller's", "C10-static-noalloc": "static strings: no allocation on read/shrink paths",
+    "C10-static-nowrite": "static strings: no write primitive / mutable view on read/shrink paths",
+    "C10-static-stays": "static strings stay borrowed or become inline", "C10-mutptr": "*mut from the storage pointer only under a heap guard",
+    "C11-cap": "capacity() reports the room the write path uses", "C11-reserve": "reserve: Ok => exclusive; within capacity => no allocation, no move",
     "FLOOR": "instance floor (fail closed)",
     "BUILD": "configuration builds",
     "unclassified": "construct the rule tables do not know",
@@ -28,6 +47,8 @@ def rules_C03(ctx):
     r_own.rule_drop_releases(ctx)
     r_own.rule_raw_leak(ctx)
     r_own.rule_U1(ctx, include_panic=False, rule="U1")
+    r_layout.rule_layout_agreement(ctx)
+    r_layout.rule_null_checks(ctx)
 
 
 def rules_C04(ctx):
@@ -37,6 +58,7 @@ def rules_C04(ctx):
 def rules_C05(ctx):
     ctx.take_ts(["R-erratomic", "R2", "unclassified", "solver"])
     r_own.rule_U1(ctx, include_panic=True, rule="U1P")
+    r_layout.rule_null_checks(ctx)
 
 
 def rules_C02(ctx):
@@ -45,10 +67,18 @@ def rules_C02(ctx):
 
 def rules_C13(ctx):
     r_shrink.rule_no_growth_in_shrink(ctx)
+    r_shrink.rule_shrink_guards(ctx)
+
+
+def rules_C11(ctx):
+    r_layout.rule_capacity_agreement(ctx)
+    r_layout.rule_reserve_post(ctx)
+    r_layout.rule_layout_agreement(ctx)
 
 
 def rules_C18(ctx):
     r_own.rule_U1(ctx, include_panic=False, rule="U1")
+    r_retain.rule_U2(ctx)
 
 
 def rules_C08(ctx):
@@ -79,8 +109,10 @@ PROPS = {
             "explanation": "Schedule-free path rules: R1 no access to the buffer through a handle after its releasing decrement (any interleaving may free/realloc it then), P2 decrements are Release+, P3 uniqueness probes / rollbacks / frees are acquire-ordered, P4 no other atomic operation on the counter. Holding on all CFG paths implies holding under every schedule and every C11-permitted reordering of those atomics."},
     "C05": {"rules": rules_C05, "level": "other",
             "explanation": "Failure atomicity as a path property: for every function with a string receiver that returns Result<_, ReserveError>, every abstract state reaching an Err return has had no effect on the receiver (no length/field write, no value-changing reassignment, reference count balanced); no drop-less heap owner is live across unwrap_with_msg (the panic taken when allocation fails)."},
+    "C11": {"rules": rules_C11, "level": "other",
+            "explanation": "Reader/writer agreement on the capacity word: HeapBuffer::capacity reads header().capacity; Header values are written only next to the allocator call with the very capacity the block was sized with; Repr::capacity and the mutable slice of as_slice_mut agree arm by arm (heap: HeapBuffer::capacity, inline: MAX_INLINE_SIZE = size of the inline array); reserve's computed summary: every Ok exit owns its storage exclusively; within-capacity fast paths (unique heap with capacity >= len+additional, inline within the limit) reach no allocation and no reassignment; realloc happens only behind capacity < needed and to amortized_growth(len, additional)."},
     "C13": {"rules": rules_C13, "level": "other",
-            "explanation": "Call-graph rule: the growth rule (amortized_growth) is unreachable from Repr::shrink_to, so no shrink path can size a buffer by 1.5x."},
+            "explanation": "The growth rule (amortized_growth) is unreachable from Repr::shrink_to; every buffer-changing call in shrink_to is dominated by the edge max(len, min_capacity) < old capacity and sized with exactly max(len, min_capacity); the heap-to-inline conversion sits behind max(len, min) <= MAX_INLINE_SIZE; non-heap receivers return Ok untouched (typestate walk); the bytes copied are the receiver's own text."},
     "C18": {"rules": rules_C18, "level": "other",
-            "explanation": "Maybe-initialised dataflow: in every body that contains a user-code edge (unresolved trait call on a type parameter, callback-taking library call, drop of a generic value), no local of a heap-capable type without drop glue (Repr, HeapBuffer) is initialised across that edge; accumulators must be LeanString (drop glue) or &mut self."},
+            "explanation": "Maybe-initialised dataflow: in every body that contains a user-code edge (unresolved trait call on a type parameter, callback-taking library call, drop of a generic value), no local of a heap-capable type without drop glue (Repr, HeapBuffer) is initialised across that edge; accumulators must be LeanString (drop glue) or &mut self. U2: a user-code edge taken while a mutable view of the string is live (retain's predicate) has a guard object dropped on its unwind path whose Drop calls Repr::set_len on every path, with a length field advanced only after the bytes were written."},
 }
